@@ -439,12 +439,24 @@ theorem localIdx_of_locOf {cs : CState} {n : String} {y : Compile.Symbol} {N : N
   simp only [slotOf, h1, h2]
   simp
 
-theorem good_define (F : FloatOps) (B : List String) (pos p : Pos) (x : String) (r : Expr) (hF : ExprF (bnd B) r = true)
-    (hx : x ≠ "_") :
-    GoodC F B (x :: B) (need r + 1) (compileStmt (.assign pos tDefine [.ident p x] [r]))
-      (fun fuel env => Sem.execStmt F fuel env (.assign pos tDefine [.ident p x] [r])) := by
+/-- a declaration `x <- e` of the reference semantics: `e` evaluated (in an environment that looks
+    like `env`), then `declare env x v` -/
+def DeclRun (F : FloatOps) (x : String) (r : Expr) (env : Sem.Env) (ss : Sem.SemSt) (t : State)
+    (c : Sem.Comp) (env' : Sem.Env) (ss' : Sem.SemSt) (t' : State) : Prop :=
+  ∃ (fuelE : Nat) (envE : Sem.Env) (rr : Sem.ER) (ss1 : Sem.SemSt) (t1 : State),
+    (∀ n, Sem.lookupEnv n envE = Sem.lookupEnv n env) ∧
+    exec ((Sem.evalExpr F fuelE envE r).run ss) t = (.ok (rr, ss1), t1) ∧
+    match rr with
+    | .thr a => c = .thr a ∧ env' = env ∧ ss' = ss1 ∧ t' = t1
+    | .val v => c = .normal ∧ exec ((Sem.declare env x v).run ss1) t1 = (.ok (env', ss'), t')
+
+/-- the code of `e` followed by `compileDefine x` against any computation that is a declaration -/
+theorem good_defineCore (F : FloatOps) (B : List String) (pos : Pos) (x : String) (r : Expr)
+    (hF : ExprF (bnd B) r = true) (hx : x ≠ "_") (sem : Nat → Sem.Env → Sem.SM (Sem.Comp × Sem.Env))
+    (hrun : ∀ fuel env ss t c env' ss' t', exec ((sem fuel env).run ss) t = (.ok ((c, env'), ss'), t') →
+      DeclRun F x r env ss t c env' ss' t') :
+    GoodC F B (x :: B) (need r + 1) (do compileExpr r; Compile.compileDefine pos x false tVar) sem := by
   intro cs cs' hc hcov hok
-  rw [compileStmt_assign1 _ _ _ _ _ (.inl rfl), cda_define] at hc
   obtain ⟨_, cs1, he, hc⟩ := bind_inv hc
   have hFe := exprF_of_cov hcov hF
   obtain ⟨she, _⟩ := good_all F r cs cs1 he hFe
@@ -472,7 +484,6 @@ theorem good_define (F : FloatOps) (B : List String) (pos p : Pos) (x : String) 
      by show nextIndex T2 ≤ fnMax T2; rw [hni]; exact hfm⟩
   refine ⟨hse, hok', Cov.cons hcov (by rw [hlx]; rfl) hlo, ?_⟩
   intro fuel K code bp L env binds s t ss ss' c env' t' hK hcode hvm hip hsp hL hst hdy hsem
-  dsimp only at hsem
   have hN : nextIndex cs.tables + 1 ≤ L := by
     have : fnMax T2 ≤ L := hL
     rw [ht1] at hfm; omega
@@ -482,6 +493,35 @@ theorem good_define (F : FloatOps) (B : List String) (pos p : Pos) (x : String) 
   have hcode1 : CodeHas code cs1.insts cs.insts.size := by
     have : CodeHas code csB.insts cs.insts.size := hcode
     exact this.sub (by rw [hBi]; exact pre_append _ _) (Nat.le_refl _)
+  obtain ⟨fuelE, envE, rr, ss1, t1, hlk, hev, hrest⟩ := hrun fuel env ss t c env' ss' t' hsem
+  have hstE : Static (localIdx cs) (nextIndex cs.tables) envE binds :=
+    ⟨fun n i hi => by rw [hlk]; exact hst.look n i hi, hst.lt, hst.inj⟩
+  obtain ⟨rfl, oe⟩ := eval_step F he hFe hK1 hcode1 hvm hip (by omega) hstE hdy (by omega) hev
+  cases rr with
+  | thr a =>
+    obtain ⟨rfl, rfl, rfl, rfl⟩ := hrest
+    exact ⟨rfl, OutS.of_thr oe hdy.rel⟩
+  | val v =>
+    obtain ⟨rfl, hsv, s1, hr1, hs1, hh1, hip1, hsp1, hag1, hget1⟩ := oe
+    obtain ⟨rfl, hdec⟩ := hrest
+    obtain ⟨rfl, rfl, hex, hen⟩ := declare_inv hdec
+    refine ⟨rfl, ?_⟩
+    have hnx : nextIndex T2 = nextIndex cs.tables + 1 := by rw [hni, ht1]
+    show OutS F code csB.insts.size bp L (localIdx { csB with tables := T2 }) (nextIndex T2) binds s _ _ _
+    rw [hnx]
+    have hem' : runCM (Compile.emit_ pos Compile.OpDefineLocal [(nextIndex cs.tables : Int)]) { cs1 with tables := T1 } =
+        (.ok (), csB) := by rw [← ht1]; exact hem
+    exact define_tail F hem' (hcode.sub (Pre.refl _) she.pre.1) hvm hr1 hs1 hh1 hag1 hsp1 hget1 hip1 hsv hst hdy hN
+      (by omega) hlx hlo hex hen
+
+theorem good_define (F : FloatOps) (B : List String) (pos p : Pos) (x : String) (r : Expr) (hF : ExprF (bnd B) r = true)
+    (hx : x ≠ "_") :
+    GoodC F B (x :: B) (need r + 1) (compileStmt (.assign pos tDefine [.ident p x] [r]))
+      (fun fuel env => Sem.execStmt F fuel env (.assign pos tDefine [.ident p x] [r])) := by
+  rw [compileStmt_assign1 _ _ _ _ _ (.inl rfl), cda_define]
+  refine good_defineCore F B pos x r hF hx _ ?_
+  intro fuel env ss t c env' ss' t' hsem
+  try dsimp only at hsem
   cases fuel with
   | zero => exact (execStmt_zero' hsem).elim
   | succ fuel =>
@@ -489,15 +529,13 @@ theorem good_define (F : FloatOps) (B : List String) (pos p : Pos) (x : String) 
     have htk : (tDefine == tAssign || tDefine == tDefine) = true := by decide
     simp only [htk, if_true] at hsem
     obtain ⟨rr, ss1, t1, hev, hsem⟩ := sm_bind_inv hsem
-    obtain ⟨rfl, oe⟩ := eval_step F he hFe hK1 hcode1 hvm hip (by omega) hst hdy (by omega) hev
+    refine ⟨fuel, env, rr, ss1, t1, fun _ => rfl, hev, ?_⟩
     cases rr with
     | thr a =>
       obtain ⟨hce, rfl, rfl⟩ := sm_pure_inv hsem
       simp only [Prod.mk.injEq] at hce
-      obtain ⟨rfl, rfl⟩ := hce
-      exact ⟨rfl, OutS.of_thr oe hdy.rel⟩
+      exact ⟨hce.1.symm, hce.2.symm, rfl, rfl⟩
     | val v =>
-      obtain ⟨rfl, hsv, s1, hr1, hs1, hh1, hip1, hsp1, hag1, hget1⟩ := oe
       simp only at hsem
       cases fuel with
       | zero => rw [assignTo_zero] at hsem; exact (sm_unsupported_ne hsem).elim
@@ -505,18 +543,115 @@ theorem good_define (F : FloatOps) (B : List String) (pos p : Pos) (x : String) 
         have htd : (tDefine == tDefine) = true := by decide
         rw [htd, assignTo_define] at hsem
         obtain ⟨envd, ss2, t2, hdec, hsem⟩ := sm_bind_inv hsem
-        obtain ⟨rfl, rfl, hex, hen⟩ := declare_inv hdec
         obtain ⟨hce, rfl, rfl⟩ := sm_pure_inv hsem
         simp only [Prod.mk.injEq] at hce
         obtain ⟨rfl, rfl⟩ := hce
-        refine ⟨rfl, ?_⟩
-        have hnx : nextIndex T2 = nextIndex cs.tables + 1 := by rw [hni, ht1]
-        show OutS F code csB.insts.size bp L (localIdx { csB with tables := T2 }) (nextIndex T2) binds s _ _ _
-        rw [hnx]
-        have hem' : runCM (Compile.emit_ pos Compile.OpDefineLocal [(nextIndex cs.tables : Int)]) { cs1 with tables := T1 } =
-            (.ok (), csB) := by rw [← ht1]; exact hem
-        exact define_tail F hem' (hcode.sub (Pre.refl _) she.pre.1) hvm hr1 hs1 hh1 hag1 hsp1 hget1 hip1 hsv hst hdy hN
-          (by omega) hlx hlo hex hen
+        exact ⟨rfl, hdec⟩
+
+/-! ### `var x = e` -/
+
+theorem compileStmt_var1 (pos ipos : Pos) (iota : Option Nat) (x : String) (e : Expr) :
+    compileStmt (.declValue pos tVar [(iota, [(ipos, x)], [some e])]) =
+      (do compileExpr e; Compile.compileDefine pos x false tVar) := by
+  rw [Compile.compileStmt_eq]
+  simp only
+  unfold Compile.compileValueSpecs
+  unfold Compile.compileValueIdents
+  unfold Compile.compileValueIdents
+  unfold Compile.compileValueSpecs
+  simp [Compile.compileValueIdent, tVar, tConst, Gen.tok_Var, Gen.tok_Const]
+
+theorem execStmt_var (F : FloatOps) (fuel : Nat) (env : Sem.Env) (pos : Pos) (tok : Nat)
+    (specs : List (Option Nat × List (Pos × String) × List (Option Expr))) :
+    Sem.execStmt F (fuel + 1) env (.declValue pos tok specs) = Sem.execValueSpecs F fuel env tok specs none := rfl
+
+theorem execValueSpecs_zero (F : FloatOps) (env : Sem.Env) (tok : Nat)
+    (specs : List (Option Nat × List (Pos × String) × List (Option Expr))) (last : Option Expr) :
+    Sem.execValueSpecs F 0 env tok specs last = Sem.liftM (unsupported "sem: fuel") := by
+  cases specs <;> rfl
+
+theorem execValueSpecs_nil (F : FloatOps) (f : Nat) (env : Sem.Env) (tok : Nat) (last : Option Expr) :
+    Sem.execValueSpecs F (f + 1) env tok [] last = pure (.normal, env) := rfl
+
+theorem execValueSpecs_cons (F : FloatOps) (f : Nat) (env : Sem.Env) (tok : Nat) (iota : Option Nat)
+    (idents : List (Pos × String)) (values : List (Option Expr))
+    (rest : List (Option Nat × List (Pos × String) × List (Option Expr))) (last : Option Expr) :
+    Sem.execValueSpecs F (f + 1) env tok ((iota, idents, values) :: rest) last = (do
+      let (c, env', last') ← Sem.execIdents F f env tok iota idents values last
+      match c with
+      | .normal => Sem.execValueSpecs F f env' tok rest last'
+      | c => pure (c, env')) := rfl
+
+theorem execIdents_zero (F : FloatOps) (env : Sem.Env) (tok : Nat) (iota : Option Nat)
+    (ids : List (Pos × String)) (vals : List (Option Expr)) (last : Option Expr) :
+    Sem.execIdents F 0 env tok iota ids vals last = Sem.liftM (unsupported "sem: fuel") := by
+  cases ids <;> rfl
+
+theorem execIdents_nil (F : FloatOps) (f : Nat) (env : Sem.Env) (tok : Nat) (iota : Option Nat)
+    (vals : List (Option Expr)) (last : Option Expr) :
+    Sem.execIdents F (f + 1) env tok iota [] vals last = pure (.normal, env, last) := rfl
+
+theorem execIdents_var1 (F : FloatOps) (f : Nat) (env : Sem.Env) (iota : Option Nat) (ipos : Pos) (x : String) (e : Expr)
+    (last : Option Expr) :
+    Sem.execIdents F (f + 1) env tVar iota [(ipos, x)] [some e] last = (do
+      let envI ← (pure ([] :: env) : Sem.SM Sem.Env)
+      match (← Sem.evalExpr F f envI e) with
+      | .thr a => pure (.thr a, env, some e)
+      | .val v => do
+        let env' ← Sem.declare env x v
+        Sem.execIdents F f env' tVar iota [] [] (some e)) := rfl
+
+/-- `var x = e` (one specification, one identifier with a value) is `x := e` -/
+theorem good_varDecl (F : FloatOps) (B : List String) (pos ipos : Pos) (iota : Option Nat) (x : String) (e : Expr)
+    (hF : ExprF (bnd B) e = true) (hx : x ≠ "_") :
+    GoodC F B (x :: B) (need e + 1) (compileStmt (.declValue pos tVar [(iota, [(ipos, x)], [some e])]))
+      (fun fuel env => Sem.execStmt F fuel env (.declValue pos tVar [(iota, [(ipos, x)], [some e])])) := by
+  rw [compileStmt_var1]
+  refine good_defineCore F B pos x e hF hx _ ?_
+  intro fuel env ss t c env' ss' t' hsem
+  try dsimp only at hsem
+  cases fuel with
+  | zero => exact (execStmt_zero' hsem).elim
+  | succ fuel =>
+    rw [execStmt_var] at hsem
+    cases fuel with
+    | zero => rw [execValueSpecs_zero] at hsem; exact (sm_unsupported_ne hsem).elim
+    | succ fuel =>
+      rw [execValueSpecs_cons] at hsem
+      obtain ⟨⟨c1, env1, last1⟩, ss1, t1, hid, hsem⟩ := sm_bind_inv hsem
+      cases fuel with
+      | zero => rw [execIdents_zero] at hid; exact (sm_unsupported_ne hid).elim
+      | succ fuel =>
+        rw [execIdents_var1] at hid
+        obtain ⟨envI, ss0, t0, hpure, hid⟩ := sm_bind_inv hid
+        obtain ⟨rfl, rfl, rfl⟩ := sm_pure_inv hpure
+        obtain ⟨rr, ss2, t2, hev, hid⟩ := sm_bind_inv hid
+        refine ⟨fuel, [] :: env, rr, ss2, t2, fun n => lookupEnv_nil_cons n env, hev, ?_⟩
+        cases rr with
+        | thr a =>
+          obtain ⟨hce, rfl, rfl⟩ := sm_pure_inv hid
+          simp only [Prod.mk.injEq] at hce
+          obtain ⟨rfl, rfl, rfl⟩ := hce
+          simp only at hsem
+          obtain ⟨hce, rfl, rfl⟩ := sm_pure_inv hsem
+          simp only [Prod.mk.injEq] at hce
+          exact ⟨hce.1.symm, hce.2.symm, rfl, rfl⟩
+        | val v =>
+          simp only at hid
+          obtain ⟨envd, ss3, t3, hdec, hid⟩ := sm_bind_inv hid
+          cases fuel with
+          | zero => rw [execIdents_zero] at hid; exact (sm_unsupported_ne hid).elim
+          | succ fuel =>
+            rw [execIdents_nil] at hid
+            obtain ⟨hce, rfl, rfl⟩ := sm_pure_inv hid
+            simp only [Prod.mk.injEq] at hce
+            obtain ⟨rfl, rfl, rfl⟩ := hce
+            simp only at hsem
+            rw [execValueSpecs_nil] at hsem
+            obtain ⟨hce, rfl, rfl⟩ := sm_pure_inv hsem
+            simp only [Prod.mk.injEq] at hce
+            obtain ⟨rfl, rfl⟩ := hce
+            exact ⟨rfl, hdec⟩
 
 /-! ### `x = e` -/
 
